@@ -351,7 +351,7 @@ RollbackRestores == (lastRet.kind = "rollback" /\ lastRet.at = nOps) => (kf \/ (
 \* C04 / C05: the content of the persisted commit changes only in a commit step
 \* (merges, rollbacks, worker steps, drops never change what readers can load)
 MetaContentOnlyChangesInCommit ==
-  [][kf' \/ Content(meta'.segs) # Content(meta.segs) => lastRet'.kind = "commit" /\ commd' = pend]_vars
+  [][kf' \/ (Content(meta'.segs) # Content(meta.segs) => (lastRet'.kind = "commit" /\ commd' = pend))]_vars
 \* C04: merged segments hold the live documents of their sources, in source order
 MergeOrderKept ==
   \A m \in merges : m.st = "done" =>
